@@ -472,6 +472,25 @@ class _Misc(ast.NodeTransformer):
             if isinstance(ks, (ast.Tuple, ast.List)) and all(isinstance(k, ast.Constant) for k in ks.elts) and isinstance(vs, ast.Name):
                 self.log.append(f"dict(zip(...)) {self.modname}:{n.lineno}")
                 return ast.copy_location(ast.Dict(keys=[ast.Constant(value=k.value) for k in ks.elts], values=[ast.Subscript(value=ast.Name(id=vs.id, ctx=ast.Load()), slice=ast.Constant(value=i), ctx=ast.Load()) for i in range(len(ks.elts))]), n)
+        # typing.cast(T, x) -> x
+        if ((isinstance(f, ast.Attribute) and f.attr == "cast" and isinstance(f.value, ast.Name) and f.value.id in ("typing", "t")) or (isinstance(f, ast.Name) and f.id == "cast")) and len(n.args) == 2 and not n.keywords:
+            self.log.append(f"typing.cast dropped {self.modname}:{n.lineno}")
+            return n.args[1]
+        # all(E(f) for f in ("a", "b", "c")) -> E("a") and E("b") and E("c")   (any -> or): a literal list of constants, no filter
+        if isinstance(f, ast.Name) and f.id in ("all", "any") and len(n.args) == 1 and not n.keywords and isinstance(n.args[0], (ast.GeneratorExp, ast.ListComp)) and len(n.args[0].generators) == 1:
+            g_ = n.args[0].generators[0]
+            if isinstance(g_.iter, (ast.Tuple, ast.List)) and 1 <= len(g_.iter.elts) <= 8 and all(isinstance(e_, ast.Constant) for e_ in g_.iter.elts) and not g_.ifs and isinstance(g_.target, ast.Name) and not g_.is_async:
+                vals = []
+                for e_ in g_.iter.elts:
+                    one = _NameConst(g_.target.id, e_).visit(ast.parse(ast.unparse(n.args[0].elt), mode="eval").body)
+                    vals.append(self.visit(one))
+                self.log.append(f"{f.id}() over a literal list unrolled {self.modname}:{n.lineno}")
+                new = vals[0] if len(vals) == 1 else ast.BoolOp(op=ast.And() if f.id == "all" else ast.Or(), values=vals)
+                ast.copy_location(new, n)
+                for x in ast.walk(new):
+                    if not hasattr(x, "lineno"):
+                        ast.copy_location(x, n)
+                return ast.fix_missing_locations(new)
         # getattr(x, "name") -> x.name
         if isinstance(f, ast.Name) and f.id == "getattr" and len(n.args) == 2 and isinstance(n.args[1], ast.Constant) and isinstance(n.args[1].value, str) and n.args[1].value.isidentifier():
             return ast.copy_location(ast.Attribute(value=n.args[0], attr=n.args[1].value, ctx=ast.Load()), n)
@@ -724,6 +743,23 @@ class _Misc(ast.NodeTransformer):
                 new_stmts.append(st)
             stmts = new_stmts
         stmts = self._function_valued_locals(stmts)
+        # x = A ; if C: x += "lit"   ->   x = A + ("lit" if C else "")     (string building with an optional suffix)
+        merged = []
+        i_ = 0
+        while i_ < len(stmts):
+            a_ = stmts[i_]
+            b_ = stmts[i_ + 1] if i_ + 1 < len(stmts) else None
+            if isinstance(a_, ast.Assign) and len(a_.targets) == 1 and isinstance(a_.targets[0], ast.Name) and isinstance(b_, ast.If) and not b_.orelse and len(b_.body) == 1 and isinstance(b_.body[0], ast.AugAssign) and isinstance(b_.body[0].op, ast.Add) and isinstance(b_.body[0].target, ast.Name) and b_.body[0].target.id == a_.targets[0].id and isinstance(b_.body[0].value, ast.Constant) and isinstance(b_.body[0].value.value, str) and not any(isinstance(x, ast.Name) and x.id == a_.targets[0].id for x in ast.walk(b_.test)) and not any(isinstance(x, (ast.Call, ast.NamedExpr, ast.Await)) for x in ast.walk(b_.test)):
+                new_v = ast.BinOp(left=a_.value, op=ast.Add(), right=ast.IfExp(test=b_.test, body=b_.body[0].value, orelse=ast.Constant(value="")))
+                a_.value = ast.copy_location(new_v, a_.value)
+                ast.fix_missing_locations(a_)
+                self.log.append(f"optional string suffix folded into the assignment {self.modname}:{a_.lineno}")
+                merged.append(a_)
+                i_ += 2
+                continue
+            merged.append(a_)
+            i_ += 1
+        stmts = merged
         out = []
         for st in stmts:
             # v = reduce(F, xs, init) / return reduce(F, xs, init)   ->   acc = init; for x in xs: acc = F(acc, x); [return acc]
@@ -2001,6 +2037,193 @@ def _subst_names(e, env):
     return R().visit(ast.parse(ast.unparse(e), mode="eval").body)
 
 
+def filter_loop_to_comprehension(fn, log=None, where=""):
+    """A loop that only selects elements into a fresh list is the comprehension:
+        acc = []
+        for t in xs:                      ->   acc = [E for t in xs if not C1 if C2]
+            if C1: continue
+            if C2: acc.append(E)          (or a bare acc.append(E) after the guards)
+    Only loops with at least one guard; nothing else in the body; `acc = []` directly in front of the loop."""
+    done = []
+
+    def pure_test(e):
+        return not any(isinstance(x, (ast.NamedExpr, ast.Await, ast.Yield, ast.YieldFrom)) for x in ast.walk(e))
+
+    def rec(stmts):
+        out = []
+        i = 0
+        while i < len(stmts):
+            st = stmts[i]
+            nxt = stmts[i + 1] if i + 1 < len(stmts) else None
+            hit = False
+            if isinstance(st, (ast.Assign, ast.AnnAssign)) and isinstance(nxt, ast.For) and not nxt.orelse:
+                tg = st.targets[0] if isinstance(st, ast.Assign) and len(st.targets) == 1 else getattr(st, "target", None)
+                v = st.value
+                empty = (isinstance(v, ast.List) and not v.elts) or (isinstance(v, ast.Call) and isinstance(v.func, ast.Name) and v.func.id == "list" and not v.args and not v.keywords)
+                if isinstance(tg, ast.Name) and empty:
+                    acc = tg.id
+                    conds, elt, ok = [], None, True
+                    body = [b for b in nxt.body if not (isinstance(b, ast.Expr) and isinstance(b.value, ast.Constant))]
+                    for k, b in enumerate(body):
+                        last = k == len(body) - 1
+                        if isinstance(b, ast.If) and not b.orelse and len(b.body) == 1 and isinstance(b.body[0], ast.Continue) and not last and pure_test(b.test):
+                            conds.append(ast.UnaryOp(op=ast.Not(), operand=b.test))
+                            continue
+                        app = b
+                        if last and isinstance(b, ast.If) and not b.orelse and len(b.body) == 1 and pure_test(b.test):
+                            conds.append(b.test)
+                            app = b.body[0]
+                        if last and isinstance(app, ast.Expr) and isinstance(app.value, ast.Call) and isinstance(app.value.func, ast.Attribute) and app.value.func.attr == "append" and isinstance(app.value.func.value, ast.Name) and app.value.func.value.id == acc and len(app.value.args) == 1 and not app.value.keywords:
+                            elt = app.value.args[0]
+                        else:
+                            ok = False
+                        break
+                    uses_acc = sum(1 for x in ast.walk(nxt) if isinstance(x, ast.Name) and x.id == acc)
+                    if ok and elt is not None and conds and uses_acc == 1 and not any(isinstance(x, (ast.Break, ast.Return)) for x in ast.walk(nxt)):
+                        comp = ast.ListComp(elt=elt, generators=[ast.comprehension(target=nxt.target, iter=nxt.iter, ifs=[_push_not(c) for c in conds], is_async=0)])
+                        new = ast.Assign(targets=[ast.Name(id=acc, ctx=ast.Store())], value=comp)
+                        ast.copy_location(new, nxt)
+                        ast.copy_location(comp, nxt)
+                        out.append(new)
+                        done.append(acc)
+                        i += 2
+                        hit = True
+            if not hit:
+                for field in ("body", "orelse", "finalbody"):
+                    blk = getattr(st, field, None)
+                    if isinstance(blk, list) and blk and isinstance(blk[0], ast.stmt) and not isinstance(st, (ast.FunctionDef, ast.AsyncFunctionDef, ast.ClassDef)):
+                        setattr(st, field, rec(blk))
+                if isinstance(st, ast.Try):
+                    for h in st.handlers:
+                        h.body = rec(h.body)
+                out.append(st)
+                i += 1
+        return out
+
+    fn.body = rec(fn.body)
+    if done:
+        ast.fix_missing_locations(fn)
+        if log is not None:
+            log.append(f"selecting loop -> comprehension {where}:{fn.name} {done}")
+    return bool(done)
+
+
+def _push_not(e):
+    """not (a is None) -> a is not None, not (not a) -> a, not (a == b) -> a != b ..."""
+    if isinstance(e, ast.UnaryOp) and isinstance(e.op, ast.Not):
+        x = e.operand
+        if isinstance(x, ast.UnaryOp) and isinstance(x.op, ast.Not):
+            return x.operand
+        if isinstance(x, ast.Compare) and len(x.ops) == 1:
+            flip = {ast.Is: ast.IsNot, ast.IsNot: ast.Is, ast.Eq: ast.NotEq, ast.NotEq: ast.Eq, ast.In: ast.NotIn, ast.NotIn: ast.In, ast.Lt: ast.GtE, ast.GtE: ast.Lt, ast.Gt: ast.LtE, ast.LtE: ast.Gt}
+            t = type(x.ops[0])
+            if t in (ast.Is, ast.IsNot, ast.Eq, ast.NotEq, ast.In, ast.NotIn):
+                return ast.copy_location(ast.Compare(left=x.left, ops=[flip[t]()], comparators=x.comparators), x)
+    return e
+
+
+def keywords_to_positional(modules, log):
+    """obj.method(a=x, b=y) for a method of the packages whose REQUIRED parameters are (a, b, ...) in every class that defines
+    it is obj.method(x, y): required parameters are written positionally (the form the rules read); optional ones stay keywords."""
+    sigs = {}
+    for mi in modules.values():
+        for st in mi.tree.body:
+            if isinstance(st, ast.ClassDef):
+                for c in st.body:
+                    if isinstance(c, (ast.FunctionDef, ast.AsyncFunctionDef)) and not c.name.startswith("__"):
+                        a = c.args
+                        if a.posonlyargs or a.vararg:
+                            sigs.setdefault(c.name, []).append(None)
+                            continue
+                        names = [x.arg for x in a.args]
+                        if names and names[0] in ("self", "cls") and not any(ast.unparse(d) == "staticmethod" for d in c.decorator_list):
+                            names = names[1:]
+                        req = names[: len(names) - len(a.defaults)] if a.defaults else names
+                        sigs.setdefault(c.name, []).append((tuple(req), frozenset(names + [x.arg for x in a.kwonlyargs]), a.kwarg is not None))
+    for mi in modules.values():
+        for c in ast.walk(mi.tree):
+            if not (isinstance(c, ast.Call) and isinstance(c.func, ast.Attribute) and c.func.attr in sigs and c.keywords):
+                continue
+            if None in sigs[c.func.attr]:
+                continue
+            if any(isinstance(a_, ast.Starred) for a_ in c.args) or any(k.arg is None for k in c.keywords):
+                continue
+            kw = {k.arg: k for k in c.keywords}
+            # the definitions this call can be addressed to: those that know every keyword it uses
+            fits = {sg[0] for sg in sigs[c.func.attr] if set(kw) <= sg[1] and not sg[2]}
+            if len(fits) != 1:
+                continue
+            req = next(iter(fits))
+            if not req:
+                continue
+            if not (set(kw) & set(req)) or len(c.args) > len(req):
+                continue
+            moved = []
+            i = len(c.args)
+            while i < len(req) and req[i] in kw:
+                moved.append(kw[req[i]])
+                i += 1
+            # every required parameter given by keyword must be movable (a contiguous run right after the positionals)
+            if not moved or any(k.arg in req and k not in moved for k in c.keywords):
+                continue
+            c.args = list(c.args) + [k.value for k in moved]
+            c.keywords = [k for k in c.keywords if k not in moved]
+            log.append(f"keyword arguments of required parameters written positionally {mi.name}:{c.lineno} .{c.func.attr}({', '.join(k.arg for k in moved)})")
+
+
+def enumerate_start_to_counter(fn, log=None, where=""):
+    """for i, x in enumerate(xs, start=i + 1): BODY   ->   for x in xs: i += 1; BODY
+    (also start=K when the statement in front of the loop is `i = K - 1`): the counter keeps the same values, also after the
+    loop and when the loop body never runs."""
+    done = []
+
+    def rec(stmts):
+        for k, st in enumerate(stmts):
+            for field in ("body", "orelse", "finalbody"):
+                blk = getattr(st, field, None)
+                if isinstance(blk, list) and blk and isinstance(blk[0], ast.stmt) and not isinstance(st, (ast.FunctionDef, ast.AsyncFunctionDef, ast.ClassDef)):
+                    rec(blk)
+            if isinstance(st, ast.Try):
+                for h in st.handlers:
+                    rec(h.body)
+            if not (isinstance(st, ast.For) and isinstance(st.target, ast.Tuple) and len(st.target.elts) == 2 and isinstance(st.target.elts[0], ast.Name) and isinstance(st.iter, ast.Call) and isinstance(st.iter.func, ast.Name) and st.iter.func.id == "enumerate" and st.iter.args):
+                continue
+            c = st.iter
+            start = c.args[1] if len(c.args) == 2 else next((kw.value for kw in c.keywords if kw.arg == "start"), None)
+            if start is None or len(c.args) > 2 or any(kw.arg != "start" for kw in c.keywords):
+                continue
+            I = st.target.elts[0].id
+            ok = False
+            if isinstance(start, ast.BinOp) and isinstance(start.op, ast.Add) and isinstance(start.left, ast.Name) and start.left.id == I and isinstance(start.right, ast.Constant) and start.right.value == 1:
+                ok = True
+            elif isinstance(start, ast.Constant) and isinstance(start.value, int) and k > 0:
+                # the nearest statement in front of the loop (same block) that binds the counter
+                for prev in reversed(stmts[:k]):
+                    if any(isinstance(n, ast.Name) and n.id == I and isinstance(n.ctx, ast.Store) for n in ast.walk(prev)):
+                        ok = isinstance(prev, ast.Assign) and len(prev.targets) == 1 and isinstance(prev.targets[0], ast.Name) and prev.targets[0].id == I and isinstance(prev.value, ast.Constant) and prev.value.value == start.value - 1
+                        break
+                    if isinstance(prev, (ast.For, ast.While, ast.If, ast.Try, ast.With)):
+                        break
+            if not ok:
+                continue
+            # the counter must not be re-bound inside the body (enumerate would overwrite it at the next round)
+            if any(isinstance(n, ast.Name) and n.id == I and isinstance(n.ctx, ast.Store) for b in st.body for n in ast.walk(b)):
+                continue
+            st.iter = c.args[0]
+            st.target = st.target.elts[1]
+            bump = ast.AugAssign(target=ast.Name(id=I, ctx=ast.Store()), op=ast.Add(), value=ast.Constant(value=1))
+            ast.copy_location(bump, st.body[0])
+            st.body.insert(0, bump)
+            done.append(I)
+
+    rec(fn.body)
+    if done:
+        ast.fix_missing_locations(fn)
+        if log is not None:
+            log.append(f"enumerate(start=...) -> counter {where}:{fn.name} {done}")
+    return bool(done)
+
+
 def known_modules():
     return set(_lines("known_modules.txt"))
 
@@ -3250,6 +3473,7 @@ def run(modules, known_funcs):
     prefix_decorators(modules, known_funcs, log)
     inline_context_managers(modules, known_funcs, log)
     specialise_new_parameters(modules, known_funcs, log)
+    keywords_to_positional(modules, log)
     inline_constants(modules, log)
     intenum_members(modules, log)
     peewee_shortcuts(modules, log)
@@ -3266,4 +3490,6 @@ def run(modules, known_funcs):
                 prefix_scanner_to_token(n, log, mi.name)
                 drop_log_only_locals(n, log, mi.name)
                 flag_to_condition(n, log, mi.name)
+                filter_loop_to_comprehension(n, log, mi.name)
+                enumerate_start_to_counter(n, log, mi.name)
     return log
